@@ -435,11 +435,14 @@ class Connector:
         them all at once when unlocked.
         """
         logger.info("[connector] lock()")
-        self.__locked = True
 
-        # Clear pending PDUs queue
+        # Clear pending PDUs queue *before* entering lock mode: a PDU saved by
+        # the I/O thread once the connector is marked as locked must not be
+        # discarded.
         with self.__locked_pdus.mutex:
             self.__locked_pdus.queue.clear()
+
+        self.__locked = True
 
     def unlock(self, dispatch_callback=None):
         """Unlock connector and dispatch pending PDUs.
